@@ -48,4 +48,6 @@ func facts() {
 	mapLiteral("authSecurityHeaders", []string{"C18"}, "internal/auth/middleware.go", "securityHeaders")
 	skeletonFact("skel_auth_emailFromIDToken", []string{"C10"}, "internal/auth/providers/google.go", "", "emailFromIDToken")
 	skeletonFact("skel_auth_SignOut", []string{"C19"}, "internal/auth/authenticator.go", "Authenticator", "SignOut")
+
+	templateActions("templateActions", "templateImports", []string{"C20"}, "internal/pkg/templates/templates.go", "internal/proxy/templates.go")
 }
